@@ -1196,6 +1196,27 @@ def _scenario(seed: int, kind: str):
         a = table("src0", lcols)
         b = table(rname, [("a", "int"), ("b", "int")] + ([("c", "string")] if r.random() < 0.5 else []))
         j = g.fresh_t()
+        right = b.tid
+        rkey = "id"
+        if r.random() < 0.4:
+            # the join key of the right side got its name by a rename (its creation name differs): only the clashing
+            # names are suffixed when nothing but join columns clashes - decided on the *current* names
+            lcols2 = [("a", "int")]
+            g.stmts[:] = [s_ for s_ in g.stmts if s_["id"] not in (a.tid, b.tid)]
+            g.tables[:] = []
+            a = table("src0", lcols2)
+            b = table(rname, [("k", "int"), ("y", "int")])
+            right = g.fresh_t()
+            S(id=right, op="rename", src=b.tid, map=[["id", "rid"], ["k", "id"]])
+            on = [{"fn": "equal", "args": [{"col": [a.tid, "id"]}, {"col": [b.tid, "k"]}]}]
+            S(id=j, op="join", src=a.tid, right=right, on=on, how=r.choice(["inner", "left", "inner"]))
+            m = g.fresh_t()
+            S(id=m, op="mutate", src=j, cols=[["p_left", {"col": [a.tid, "a"]}], ["p_right", {"col": [b.tid, "y"]}], ["p_key", {"col": [b.tid, "k"]}]])
+            f = g.fresh_t()
+            S(id=f, op="arrange", src=m, by=[{"col": [a.tid, "id"]}, {"col": [b.tid, "id"]}])
+            S(id="x1", op="export", src=f, target="polars", ordered=True)
+            p = g.program()
+            return p, dict(features=[kind, "join_key_renamed"], ops=[], verbs=[s_["op"] for s_ in g.stmts], final="x1")
         on = [{"fn": "equal", "args": [{"col": [a.tid, "id"]}, {"col": [b.tid, "id"]}]}]
         S(id=j, op="join", src=a.tid, right=b.tid, on=on, how=r.choice(["inner", "left", "inner"]))
         m = g.fresh_t()
@@ -1269,6 +1290,58 @@ def _scenario(seed: int, kind: str):
             S(id=last, op="filter", src=u, preds=[{"fn": "greater_than", "args": [{"c": "k"}, {"lit": 1}]}])
         else:
             S(id=last, op="mutate", src=u, cols=[["w", {"fn": "sum", "args": [{"c": other}], "partition_by": [{"c": "k"}]}]])
+        S(id="x1", op="export", src=last, target="polars", ordered=False)
+    elif kind == "scen_union_distinct":
+        # `distinct=True` removes duplicates over the whole visible row, whatever later verbs still use: rows that agree on the
+        # columns kept later and differ on another one must survive (D80: a subquery below the union was pruned).  The tables
+        # have no unique column, and no verb between the subquery and the union mentions the columns.
+        def plain(name, nrows):
+            cs = [dict(name="a", dtype="int64", vals=[r.choice([1, 1, 2, None]) for _ in range(nrows)]),
+                  dict(name="b", dtype="int64", vals=[r.choice([1, 2, 3]) for _ in range(nrows)])]
+            g.tables.append(dict(name=name, cols=cs))
+            tid = g.fresh_t()
+            g.stmts.append(dict(id=tid, op="source", table=name))
+            return tid
+
+        n = r.choice([4, 6, 8])
+        ta, tb = plain("src0", n), plain("src1", r.choice([2, 3, 4]))
+        left, right = ta, tb
+        wrap = r.choice(["none", "left", "left", "right_filter", "left_filter"])
+        if wrap == "left":
+            t1, t2, t3 = g.fresh_t(), g.fresh_t(), g.fresh_t()
+            S(id=t1, op="arrange", src=ta, by=[{"col": [ta, "a"]}, {"col": [ta, "b"]}])
+            S(id=t2, op="slice_head", src=t1, n=100, offset=0)
+            S(id=t3, op="alias", src=t2)
+            left = t3
+        elif wrap == "right_filter":
+            t1 = g.fresh_t()
+            S(id=t1, op="filter", src=tb, preds=[{"fn": "greater_than", "args": [{"col": [tb, "b"]}, {"lit": 0}]}])
+            right = t1
+        elif wrap == "left_filter":
+            t1, t2, t3 = g.fresh_t(), g.fresh_t(), g.fresh_t()
+            S(id=t1, op="mutate", src=ta, cols=[["w", {"fn": "row_number", "args": [], "arrange": [{"col": [ta, "a"]}, {"col": [ta, "b"]}]}]])
+            S(id=t2, op="alias", src=t1)
+            S(id=t3, op="filter", src=t2, preds=[{"fn": "greater_than", "args": [{"c": "w"}, {"lit": 0}]}])
+            left = g.fresh_t()
+            S(id=left, op="drop", src=t3, cols=["w"])
+        u = g.fresh_t()
+        if r.random() < 0.4:
+            r2 = g.fresh_t()
+            S(id=r2, op="select", src=right, cols=["b", "a"])
+            right = r2
+        S(id=u, op="union", src=left, right=right, distinct=True)
+        last = g.fresh_t()
+        after = r.choice(["select", "select", "count", "mutate_over", "group"])
+        if after == "select":
+            S(id=last, op="select", src=u, cols=[r.choice(["a", "b"])])
+        elif after == "count":
+            S(id=last, op="summarize", src=u, cols=[["n", {"fn": "count_star", "args": []}]])
+        elif after == "mutate_over":
+            S(id=last, op="mutate", src=u, cols=[["b", {"lit": 0}]])
+        else:
+            gb = g.fresh_t()
+            S(id=gb, op="group_by", src=u, cols=[{"c": "a"}])
+            S(id=last, op="summarize", src=gb, cols=[["n", {"fn": "count_star", "args": []}]])
         S(id="x1", op="export", src=last, target="polars", ordered=False)
     elif kind == "scen_selfjoin_agg":
         # "join the aggregate back": a table joined with a summary of itself (through alias()); verbs after
